@@ -130,6 +130,26 @@ func (w *World) EvalQuiescent() {
 		}
 	}
 
+	// ---- C23 at the relay: the system is quiescent (nothing can run any more);
+	// a message still queued at the relay for a peer whose call is attached,
+	// announced open and draining its stream will never be delivered
+	for _, st := range sessions {
+		if !st.AttachedA || !st.AttachedB {
+			continue
+		}
+		a, b := w.Names[st.PeerA], w.Names[st.PeerB]
+		for _, sd := range []struct {
+			me, other string
+			pending   uint64
+		}{{a, b, st.RecvA}, {b, a, st.RecvB}} {
+			cs := sessBy[sd.me+">"+sd.other]
+			if sd.pending == 0 || len(cs) != 1 || cs[0].D.Stalled() {
+				continue
+			}
+			w.verdict("V23:message-stranded-at-relay for=%s seqno=%d epoch=%d the receiving call is attached and draining, nothing is left to run", sd.me, sd.pending, st.Seqno)
+		}
+	}
+
 	// ---- per-stream scans: C22 (iv), C20 (1)
 	for _, c := range calls {
 		if c.Kind != "session" {
